@@ -1128,7 +1128,7 @@ void sqf::operators::ops_object(sqf::runtime::runtime& runtime)
     runtime.register_sqfop(unary("typeOf", t_object(), "Returns the config class name of given object.", typeof_object));
     runtime.register_sqfop(unary("createVehicle", t_array(), "Creates an empty object of given classname type.", createvehicle_array));
     runtime.register_sqfop(binary(4, "createVehicle", t_string(), t_array(), "Creates an empty object of given classname type.", createvehicle_string_array));
-    runtime.register_sqfop(binary(4, "createVehicleLocal", t_any(), t_any(), "Creates an empty object of given classname type.", createvehicle_string_array));
+    runtime.register_sqfop(binary(4, "createVehicleLocal", t_string(), t_array(), "Creates an empty object of given classname type.", createvehicle_string_array));
     runtime.register_sqfop(unary("deleteVehicle", t_object(), "Deletes an object.", deletevehicle_array));
     runtime.register_sqfop(unary("position", t_object(), "Returns the object position in format PositionAGLS. Z value is height over the surface underneath.", position_object));
     runtime.register_sqfop(unary("getPos", t_object(), "Returns the object position in format PositionAGLS. Z value is height over the surface underneath.", position_object));
